@@ -18,7 +18,9 @@ ASSUMPTIONS = ["a dead band of relative width 1e-9 around physical equality is l
                "for identical units == and != are required to be exact"]
 BOUNDS = {"quick": {"elements": "all symbolic", "shapes": "0-d, (2,), (2,)+(), (2,1)+(1,2)",
                     "dtype_pairs": "(f64,f64),(f32,f32),(i64,i64),(i32,f64)", "unit_pairs": "2 per family + incompatible",
-                    "operators": "< <= > >= == != & | ^ ~", "rhs kinds": "Array, int, float, ndarray, Quantity"},
+                    "operators": "< <= > >= == != & | ^ ~", "rhs kinds": "Array, int, float, ndarray, Quantity",
+                    "histories": "4 earlier operations (comparison, reflected comparison, to(), a+b) x 6 in-place changes of an operand "
+                                 "(+=, *=, element assignment, assignment through a view, lhs +=, unit relabel) x 3 unit pairs, then the comparison"},
           "thorough": {"elements": "all symbolic", "shapes": "as quick + (2,2), (3,)", "dtype_pairs": "all 16",
                        "unit_pairs": "4 per family + incompatible", "operators": "as quick", "rhs kinds": "as quick"}}
 FLOOR = {"quick": 1500, "thorough": 8000}
@@ -55,6 +57,15 @@ def configs(tier):
                     out.append(dict(op=op, rhs=rhs, dta=dta, dtb=("int64" if rhs == "int" else "float64"), sa=[2],
                                     sb=([] if rhs in ("int", "float") else [2]), ua=ua,
                                     ub=(ub if rhs == "Quantity" else "dimensionless")))
+    # histories: an earlier operation on the same operands, then an in-place change of one of them, then the comparison
+    # (hidden state in the operands -- e.g. a remembered conversion -- must not be observable)
+    for op in (("lt", "eq", "ge") if tier == "quick" else tuple(CMP)):
+        for pre in ("cmp", "rcmp", "to", "add"):
+            for mut in ("b_iadd", "b_imul", "b_set", "a_iadd", "b_unit", "b_slice_set"):
+                for ua, ub in [("m", "cm"), ("cm", "cm"), ("km/m", "dimensionless")]:
+                    if mut == "b_unit" and ub == "dimensionless":
+                        continue
+                    out.append(dict(op=op, rhs="Array", dta="float64", dtb="float64", sa=[2], sb=[2], ua=ua, ub=ub, pre=pre, mut=mut))
     for op in LOG:
         for sa, sb in ([((2,), (2,)), ((), ()), ((2,), ())] + ([((2, 1), (1, 2)), ((3,), (3,))] if tier != "quick" else [])):
             for rhs in ("Array", "ndarray", "bool"):
@@ -114,6 +125,29 @@ def body(m, cfg):
         mag = m.array("b", sb, dtb)
         b = osyris.units._ureg.Quantity(mag, cfg["ub"])
         bv = m.vals(mag)
+    if cfg.get("pre"):
+        pre, mut = cfg["pre"], cfg["mut"]
+        tag += f":after:{pre}:{mut}"
+        try:
+            {"cmp": lambda: CMP[op](a, b), "rcmp": lambda: CMP[op](b, a), "to": lambda: b.to(a.unit), "add": lambda: a + b}[pre]()
+        except DimensionalityError:
+            pass
+        if mut == "b_iadd":
+            b += Array(m.array("d", sb, dtb), unit=cfg["ub"])
+        elif mut == "b_imul":
+            b *= 2.0
+        elif mut == "b_set":
+            b.values[0] = m.real("v")
+        elif mut == "b_slice_set":
+            b[1:].values[0] = m.real("v")          # through a view
+        elif mut == "a_iadd":
+            a += Array(m.array("d", sa, dta), unit=cfg["ua"])
+        elif mut == "b_unit":
+            nb = {"cm": "m", "m": "km"}[cfg["ub"]]
+            b.unit = osyris.units(nb)
+            fb, db = C.fd(nb)
+            cfg = dict(cfg, ub=nb)
+        av, bv = m.vals(a._array), m.vals(b._array)
     snap_a = C.snapshot(m, a)
     ia, ib, bs = C.bcast_index(sa, sb)
     try:
